@@ -197,6 +197,41 @@ func genScenario(p *Property, t *Tape, tier string) *Scenario {
 		a.Park = Dur(1+t.Intn(6)) * 100 * time.Microsecond
 		sc.Strata = append(sc.Strata, "inserted-yield/subset")
 	}
+	// Parks are time the server spends between two statements. They must not add up to
+	// anything a timeout of the scenario could notice (a 6 000-octet chunk dribbled octet by
+	// octet passes some 20 000 sites; at 0.6 ms each the transfer outlasts ReadTimeout - the
+	// first false alarm of this tier in a thorough sweep): the park is scaled so that the
+	// segments of the scenario cost at most 0.2 s in all, and the run stops parking
+	// altogether after one second of parked time.
+	nseg := 0
+	for _, c := range sc.Conns {
+		for _, st := range c.Steps {
+			n := 1
+			if len(st.Segs) > 0 {
+				min := st.Segs[0]
+				for _, z := range st.Segs {
+					if z > 0 && z < min {
+						min = z
+					}
+				}
+				if min < 1 {
+					min = 1
+				}
+				n = len(st.Data)/min + 1
+			}
+			nseg += n
+		}
+		if c.Client != nil {
+			nseg += 200
+		}
+	}
+	if lim := 200 * time.Millisecond / Dur(4*nseg+100); a.Park > lim {
+		a.Park = lim
+		if a.Park < 20*time.Microsecond {
+			a.Park = 20 * time.Microsecond
+		}
+	}
+	a.Budget = time.Second
 	sc.AutoYield = a
 	for i := range sc.Admin {
 		// A Shutdown held up at yield points for longer than its deadline finds both its
@@ -1003,6 +1038,9 @@ func commonFaultCounts(sc *Scenario, h *History, st *Stats) {
 				st.Probes["parked_inside:"+f]++
 			}
 		}
+	}
+	if h.AutoOverBudget > 0 {
+		st.Probes["run_used_up_its_park_budget"]++
 	}
 	if h.AutoSkipped > 0 {
 		st.Probes["inserted_yield_point_passed_with_a_mutex_held_no_park"] += h.AutoSkipped
